@@ -34,6 +34,10 @@ def corpus():
     for k in range(1, 18):
         out.append((L.Sched(labels=["D0", "S*", "N:" + hexs("player"), f"D{k}", "D1", "c1:" + e("one"), "D0", "S*", "D0"] + L.flush(1), note=f"idle reply in three pieces ({k})"),
                     {"requests": {1: ("c", [e("one")])}, "cancelled": set(), "notified": ["player"], "fault_free": True}))
+    for nmany in (257, 300, 1000):
+        reqs_m = {i: ("c", [e(f"q{i}")]) for i in range(1, nmany + 1)}
+        out.append((L.Sched(labels=["D0", "S*", "D0"] + [f"c{i}:" + e(f"q{i}") for i in range(1, nmany + 1)] + L.flush(nmany), note=f"{nmany} callers at once"),
+                    {"requests": reqs_m, "cancelled": set(), "notified": [], "fault_free": True}))
     # far more requests pending at once than any bounded queue would take
     reqs = {i: ("c", [e(f"q{i}")]) for i in range(1, 201)}
     out.append((L.Sched(labels=["D0"] + [f"c{i}:" + e(f"q{i}") for i in range(1, 201)] + L.flush(200), note="200 callers at once"),
